@@ -27,9 +27,9 @@ Cfg0C09b == {<<[C("basic", 0, 1, 1, FALSE, TRUE, FALSE) EXCEPT !.forget = 2], C(
 BudC09b  == B(3, 0, 1, 0, 1, 2, 1, 100)
 \* quick-tier variants
 Cfg0C08bq == {<<[C("basic", 0, 1, 1, TRUE, TRUE, FALSE) EXCEPT !.forget = 2], C("classic", 0, 0, 1, FALSE, FALSE, TRUE)>>}
-BudC08bq  == B(2, 1, 1, 1, 0, 1, 0, 100)
+BudC08bq  == B(2, 1, 1, 1, 0, 0, 0, 100)
 Cfg0C09q  == {<<C("classic", 1, 1, 1, FALSE, TRUE, FALSE), [C("basic", 0, 0, 1, TRUE, TRUE, FALSE) EXCEPT !.forget = 2]>>}
-BudC09q   == B(3, 0, 1, 0, 1, 0, 1, 100)
+BudC09q   == B(3, 0, 1, 0, 0, 0, 1, 100)
 \* C09 liveness: the environment is quiet after time 1
 Cfg0Live  == {<<C("classic", 1, 1, 1, FALSE, TRUE, FALSE), [C("basic", 0, 1, 1, FALSE, TRUE, FALSE) EXCEPT !.forget = 3]>>}
 BudLiveC  == B(3, 0, 0, 0, 0, 0, 1, 1)
